@@ -13,7 +13,7 @@ META = dict(
         "computed symbolically); R4 (adopted from C09-R4) their memo tables are private and keyed by their arguments; R5 "
         "(adopted from C15-R1..R4) the rule-inlining optimisation runs once before compilation, both elimination sites are "
         "guarded by !is_special_symbol and their shape conditions (single rule, condition true), the guard covers every semantic "
-        "symbol property, and the alias union-find compresses to the root."
+        "symbol property, the alias union-find compresses to the root, and every rule of a kept symbol is re-emitted."
     ),
     not_decided=(
         "Earley scan / predict / complete (including nullable completion and parametric conditions), the nullable pre-computation, "
@@ -27,5 +27,5 @@ def run(ctx):
     ctx.import_clauses("c09", "C09-R2", [""], "C05-R2")
     ctx.import_clauses("c09", "C09-R6", ["count-set:"], "C05-R3")
     ctx.import_clauses("c09", "C09-R4", [""], "C05-R4")
-    for r in ("C15-R1", "C15-R2", "C15-R3", "C15-R4"):
+    for r in ("C15-R1", "C15-R2", "C15-R3", "C15-R4", "C15-R5"):
         ctx.import_clauses("c15", r, [""], "C05-R5")
